@@ -102,7 +102,7 @@ func (a *An) c01Gates() {
 		for _, st := range a.DirectStoresTo(fld) {
 			if k, ok := st.Val.(*ssa.Const); ok && constStr(k) == enc {
 				n++
-				fn := a.C.Name(st.Parent())
+				fn := a.C.Name(a.C.owner(st.Parent()))
 				R.Check(fn == "(*Conversation).akeHasFinished", "W.encrypted", "store msgState=encrypted|"+fn, "msgState becomes encrypted only in akeHasFinished", a.C.InstrPos(st), fn+" sets msgState to encrypted")
 			} else if !ok {
 				R.Undec("W.encrypted", "store msgState|"+a.C.Name(st.Parent()), "stored message state is a constant", a.C.InstrPos(st), "non-constant value "+a.C.Term(st.Val))
@@ -383,7 +383,7 @@ func (a *An) c01Provenance() {
 			if fld := a.MustField("Conversation", "theirKey"); fld != nil {
 				n := 0
 				for _, st := range a.DirectStoresTo(fld) {
-					if st.Parent() != fn {
+					if !a.C.within(st, fn) {
 						continue
 					}
 					n++
@@ -448,7 +448,7 @@ func (a *An) theirDHWriters() {
 	// who may write ake.theirPublicValue, and with what
 	if fld := a.MustField("ake", "theirPublicValue"); fld != nil {
 		for _, st := range a.DirectStoresTo(fld) {
-			fn := a.C.Name(st.Parent())
+			fn := a.C.Name(a.C.owner(st.Parent()))
 			key := "write|ake.theirPublicValue|" + fn
 			switch fn {
 			case "(*Conversation).processDHKey":
